@@ -23,8 +23,8 @@ ASSUMPTIONS = [
 
 TRIGGERS = {2: "C19.guilty_without_validator_record"}
 CODES = {
-    1: "an account that is not an active validator opened an allegation",
-    2: "a vote was accepted from a non-active or frozen validator, or a second vote of the same validator",
+    1: "an account that is not in the elected validator set opened an allegation",
+    2: "a vote was accepted from a validator outside the elected set or frozen, or a second vote of the same validator",
     3: "a stake/unstake/withdraw transaction was accepted for a frozen validator",
     4: "a byzantine-fault freeze was released before the configured release time",
     5: "a verdict was reached although the votes do not cross the configured share",
@@ -34,6 +34,7 @@ CODES = {
     9: "a frozen byzantine-fault record changed although the validator was not released",
     10: "a frozen validator is still active after EndBlock",
     11: "a transaction that names a validator but is not signed by it was executed",
+    13: "the evidence status (active flag) of a staker differs from its election result: a staker outside the elected set is marked active, or an elected one inactive",
     12: "a request whose votes cross a share is still open after EndBlock (the decision is taken again every block)",
 }
 CLASSES = {1: "transaction ok/fail", 2: "requests", 3: "tracker", 4: "suspicious-validator records", 5: "validator status records",
@@ -86,8 +87,12 @@ def judge(ctx, rep, cases, mm, mv):
         if name and ctx.known_finding(name, CODES.get(code, "")):
             continue
         found = True
-        if ctx.violations < 3:
-            ctx.violation("mon_%d_%d" % (ci, step), payload(cases[ci], step, kind=CODES.get(code, "monitor code %d" % code), code=code))
+        # one replay per kind of failure (the same defect usually fires several monitor codes)
+        seen = getattr(ctx, "_c19_codes", set())
+        if code not in seen and len(seen) < 5:
+            seen.add(code)
+            ctx._c19_codes = seen
+            ctx.violation("mon_%d_%d_c%d" % (ci, step, code), payload(cases[ci], step, kind=CODES.get(code, "monitor code %d" % code), code=code))
     for e in rep.get("Errors") or []:
         found = True
         if ctx.violations < 4:
